@@ -369,10 +369,15 @@ func (rn *vRunner) stopGen() error {
 	atomic.StoreInt32(&m.deadGen, int32(rn.gen))
 	live := m.allLiveProcs()
 	m.mu.Lock()
-	m.inherited = live
 	n := 0
-	for _, refs := range live {
+	for uuid, refs := range live {
 		n += len(refs)
+		if m.inherited[uuid] == nil {
+			m.inherited[uuid] = map[vProcRef]bool{}
+		}
+		for ref := range refs {
+			m.inherited[uuid][ref] = true
+		}
 	}
 	m.ev(rn.gen, "gen-dead", "", "", fmt.Sprintf("live=%d", n))
 	m.mu.Unlock()
